@@ -753,3 +753,195 @@ RS.rules.append(Rule('C05.R6', 'K-TAINT', 'the existence tests of pathname expan
                      'against the directory tree: no lexically shortened pathname reaches FileSystem::get, so `nx/../*` yields no '
                      'non-existing pathnames (C19.R16)', _c19_dotdot_resolved_in_tree))
 RS.explanation += ' Added in wave 3: the simulated kernel behind fstatat/opendir resolves `..` in the directory tree, never lexically (R6 = C19.R16).'
+
+
+# --- C05.R7: the scan loop is left only at the end of the directory or with a Break -------------------------------------------
+_WRAPPED_ENTRY = re.compile(r"^(?:(?:core::result::Result|core::option::Option)<)+yash_env::system::file_system::DirEntry\b")
+_ADAPTORS = [re.compile(r'^core::(option::Option|result::Result)::<.*>::\w+$')]
+_FROM_RESIDUAL = [re.compile(r'FromResidual<.*>::from_residual$')]
+_CF = 'core::ops::control_flow::ControlFlow'
+
+
+def _search_dir_body(F):
+    """search_dir with its private helpers inlined (one level); the mutually recursive pair and the reviewed leaves stay calls."""
+    from facts import same_module_private
+    acc = same_module_private(F, SEARCH_DIR)
+    return F.inlined(F.body(SEARCH_DIR), accept=lambda n: acc(n) and n not in (FILE_EXISTS, SEARCH_DIR, PUSH_COMPONENT, TO_PATTERN))
+
+
+def _comes_from(du, local, target, depth=10):
+    """`local` holds the value of `target` (the destination of Dir::next), moved, borrowed, or passed through
+    Option/Result adaptors (ok, flatten, unwrap_or, ..): still "the answer of readdir", not something computed from an entry."""
+    for _ in range(depth):
+        if local == target:
+            return True
+        d = du.single_def(local)
+        if d is None:
+            return False
+        if d[1] == 't':
+            if not Q.callee_is(d[2], _ADAPTORS) or not d[2]['a']:
+                return False
+            local = Q.operand_local(d[2]['a'][0])
+        elif d[2]['k'] == 'assign' and d[2]['rv']['k'] == 'ref':
+            local = d[2]['rv']['pl']['l']
+        elif d[2]['k'] == 'assign' and d[2]['rv']['k'] == 'use':
+            local = Q.operand_local(d[2]['rv']['o'])
+        else:
+            return False
+        if local is None:
+            return False
+    return False
+
+
+def _is_end_of_directory(du, org, labs, next_dest):
+    """The switch tests the (Result/Option-wrapped) answer of Dir::next itself and this edge is its None / Err side."""
+    if org['k'] != 'discr':
+        return False
+    ty = org['ty'].lstrip('&').strip()
+    ty = ty[4:] if ty.startswith('mut ') else ty
+    if not _WRAPPED_ENTRY.match(ty):
+        return False
+    if not _comes_from(du, org['pl']['l'], next_dest):
+        return False
+    return bool(labs) and all(lab in (('variant', 'None'), ('variant', 'Err')) for lab in labs)
+
+
+def _return_value_kinds(F, body, du):
+    """block -> [kind of each write of the return place in that block, in order]: 'break' if the value written is certainly
+    ControlFlow::Break, else 'other'."""
+    out = {}
+    for b in sorted(body.live_blocks()):
+        kinds = []
+        for s in body.blocks[b]['s']:
+            if s['k'] != 'assign' or s['lhs']['l'] != 0:
+                continue
+            rv = s['rv']
+            kind = 'other'
+            if not s['lhs'].get('p'):
+                if rv['k'] == 'agg' and rv.get('adt') == _CF:
+                    kind = 'break' if rv.get('variant') == 'Break' else 'other'
+                elif rv['k'] == 'use':
+                    org = du.origin(rv['o'])
+                    if org['k'] == 'agg' and org['rv'].get('adt') == _CF and org['rv'].get('variant') == 'Break':
+                        kind = 'break'
+                    elif _known_break(F, body, du, rv['o'], b):
+                        kind = 'break'
+            kinds.append(kind)
+        t = body.term(b)
+        if t['k'] == 'call' and t['dest']['l'] == 0:
+            # in a function returning ControlFlow<B, ()> the residual of `?` is ControlFlow<B, Infallible>: always Break
+            kinds.append('break' if Q.callee_is(t, _FROM_RESIDUAL) and not t['dest'].get('p') else 'other')
+        if kinds:
+            out[b] = kinds
+    return out
+
+
+def _known_break(F, body, du, operand, block):
+    """`return r` where r is a ControlFlow known to be Break here (matched as Break / r.is_break() / !r.is_continue())."""
+    l = _behind(du, operand)
+    if l is None or not body.locals[l]['ty'].startswith(_CF):
+        return False
+    for org, lab, e in Q.implied_conditions(F, body, du, block):
+        if org['k'] == 'discr' and lab == ('variant', 'Break') and _behind(du, {'cp': {'l': org['pl']['l']}}) == l and not org['pl'].get('p'):
+            return True
+        if org['k'] == 'call' and org['t']['a'] and _behind(du, org['t']['a'][0]) == l:
+            if Q.callee_is(org['t'], [re.compile(r'ControlFlow::<.*>::is_break$')]) and lab == ('bool', True):
+                return True
+            if Q.callee_is(org['t'], [re.compile(r'ControlFlow::<.*>::is_continue$')]) and lab == ('bool', False):
+                return True
+    return False
+
+
+def _test_name(body, du, org):
+    """Stable, position-free name of what a loop exit tests (for the violation key)."""
+    if org is None:
+        return 'unconditional'
+    if org['k'] == 'call':
+        return _callee_short(org['t'])
+    if org['k'] == 'discr':
+        src = Q.value_source(body, du, {'cp': {'l': org['pl']['l']}})
+        if src is not None:
+            return _callee_short(src)
+        return 'match on ' + re.sub(r"<.*$", '', org['ty']).split('::')[-1]
+    return org['k']
+
+
+def _callee_short(t):
+    n = t['f'].get('def') or t['f'].get('decl') or '?'
+    n = re.sub(r'<[^<>]*>', '', re.sub(r'<[^<>]*>', '', n))
+    return '::'.join(n.split('::')[-2:])
+
+
+@RS.rule('C05.R7', 'K-PASS', 'the directory scan ends only when readdir says so: the loop over Dir::next is left at the end-of-directory '
+         '(None / error) edge or with a Break; a test on one entry may skip that entry, never the rest of the directory')
+def r7(cx):
+    F = cx.F
+    body = _search_dir_body(F)
+    cx.fn(body.fn)
+    du = Q.DefUse(body)
+    cx.require(body.locals[0]['ty'].startswith(_CF), 'search_dir does not return a ControlFlow any more: review C05.R7')
+    nexts = Q.find_calls(body, ['*::Dir::next'])
+    cx.require(len(nexts) >= 1, 'Dir::next not found in search_dir')
+    writes = _return_value_kinds(F, body, du)
+    rets = set(body.return_blocks())
+    for nb, nt in nexts:
+        loop = {b for b in body.reachable(nb) if nb in body.reachable(b)}
+        if nb not in loop or len(loop) < 2:
+            cx.violation(SEARCH_DIR, 'scan-not-a-loop', 'Dir::next is not called in a loop: at most one entry of the directory is examined',
+                         loc=body.loc(nt))
+            continue
+        next_dest = nt['dest']['l']
+        exits = sorted((u, v) for u in loop for v in body.succ(u) if v not in loop)
+        eod = 0
+        for u, v in exits:
+            ec = Q.edge_condition(F, body, du, u)
+            org, labs = (ec[0], ec[1].get(v, [])) if ec else (None, [])
+            if not any(r in rets for r in body.reachable(v)):
+                continue            # unreachable!() / diverging arm: not a way out of the scan
+            if org is not None and _is_end_of_directory(du, org, labs, next_dest):
+                eod += 1
+                cx.site('%s: scan loop exit at %s: Dir::next answered %s (end of directory)'
+                        % (body.fn, body.loc(body.term(u)), '/'.join(l[1] for l in labs)))
+                continue
+            # any other way out must abandon the whole expansion (Break), never "go on" (Continue) with the directory half read
+            bad = _path_returning_non_break(body, v, writes, rets)
+            what = _test_name(body, du, org)
+            cx.site('%s: scan loop exit at %s decided by %s: %s' % (body.fn, body.loc(body.term(u)), what,
+                                                                     'returns Break' if bad is None else 'does NOT return Break'))
+            if bad is not None:
+                cx.violation(SEARCH_DIR, 'scan-abandoned-without-break:%s' % what,
+                             'the scan of a directory can stop before Dir::next reported the end of the directory (exit decided by %s) and '
+                             'the search then goes on as if the directory had been read completely: every entry the stream would have '
+                             'yielded later is never examined, so existing matching pathnames are omitted, depending on readdir order '
+                             '(a test on one entry may only skip to the next entry)' % what,
+                             loc=body.loc(body.term(u)), path=Q.render_path(body, [u] + bad))
+        if eod == 0:
+            cx.violation(SEARCH_DIR, 'no-end-of-directory-exit', 'the scan loop has no exit on Dir::next answering None / an error: the end '
+                         'of the directory is not what ends the scan', loc=body.loc(nt))
+
+
+def _path_returning_non_break(body, start, writes, rets):
+    """A path from `start` to a return on which the last value written to the return place is not certainly Break (None if
+    there is none). The state on entry is 'other': a value written before the loop was left does not count."""
+    from collections import deque
+    first = (start, 'other')
+    prev = {first: None}
+    q = deque([first])
+    while q:
+        node = q.popleft()
+        b, st = node
+        for k in writes.get(b, ()):
+            st = k
+        if b in rets:
+            if st != 'break':
+                path = []
+                while node is not None:
+                    path.append(node[0])
+                    node = prev[node]
+                return path[::-1]
+            continue
+        for s in body.succ(b):
+            if (s, st) not in prev:
+                prev[(s, st)] = node
+                q.append((s, st))
+    return None
